@@ -8,6 +8,7 @@ from ..core import FUNC, call_attr, calls_in, const, dotted, is_const, kwarg, no
 from .c09 import waiter_rule, _stored_in_cancelled_table
 
 EXPLANATION = [
+    'C16.device-cleanup: in Device.on_disconnection every subsystem clean-up call (GATT server, ...) is guarded exactly like the emission of the disconnection event: no extra condition such as the link-layer role.',
     'C16.smp-sessions: Session.on_disconnection reports the end of the session to the manager on every path and the manager removes it from its table; the session registers for its connection\'s disconnection event.',
     'C16.parity: the host tears a link down in one place (Host.on_disconnection: event to listeners, host tables, three data queues); '
     'both ways a link can end reach it for every live handle - the Disconnection Complete event and the loss of the transport - and '
@@ -261,7 +262,29 @@ def smp_sessions(ctx):
     R.check(ok, rule, 'bumble.smp.Session.__init__ | listens for disconnection', 'registers on_disconnection on its connection', 'the session is not told when its link goes away', p.loc(init) if init else '')
 
 
+
+def device_cleanup(ctx):
+    """Per-connection clean-up in Device.on_disconnection depends only on the connection being known."""
+    R, p = ctx.r, ctx.p
+    rule = 'C16.device-cleanup'
+    fn = p.find('bumble.device.Device.on_disconnection')
+    if fn is None:
+        R.bad(rule, 'bumble.device.Device.on_disconnection', 'anchor missing')
+        return
+    emit = next((c for c in calls_in(fn) if call_attr(c) == 'emit' and c.args and 'EVENT_DISCONNECTION' in norm(c.args[0]) and dotted(c.func.value) == 'connection'), None)
+    clean = [c for c in calls_in(fn) if call_attr(c) == 'on_disconnection' and (dotted(c.func.value) or '').startswith('self.')]
+    if emit is None or not clean:
+        R.bad(rule, 'bumble.device.Device.on_disconnection | clean-up calls', f'event emission {"found" if emit else "missing"}, {len(clean)} subsystem clean-up calls', p.loc(fn))
+        return
+    ge = sorted((norm(t), pol) for t, pol in paths.flat_guards(emit))
+    for c in clean:
+        gc = sorted((norm(t), pol) for t, pol in paths.flat_guards(c))
+        R.check(gc == ge, rule, f'bumble.device.Device.on_disconnection | {dotted(c.func)}', 'runs for every connection that is reported as disconnected (same guards as the disconnection event)',
+                f'{dotted(c.func)} runs only under {[g for g in gc if g not in ge]}: for the other connections the subsystem keeps its per-connection state (e.g. GATT subscriptions of a server on the central) after the link is gone', p.loc(c))
+
+
 RULES = [
+    ('C16.device-cleanup', device_cleanup),
     ('C16.smp-sessions', smp_sessions),
     ('C16.parity', parity),
     ('C16.variants', variants),
